@@ -389,9 +389,16 @@ Definition copy_root_siblings (source target : doc) : doc :=
      root := root target;
      epilogue := drain addnext (pop_order (stack_next (epilogue source))) (epilogue target) |}.
 (* Document.root = node.  `target` is the new root with whatever root-level siblings it already has
-   (none for a detached or new node).  None = TypeError (not a TagNode). *)
-Definition set_root (d : doc) (target : doc) : option doc :=
-  if is_tag (root target) then Some (copy_root_siblings d target) else None.
+   (none for a detached or new node); `same` says that the node IS the current root (identity is not
+   part of a content tree, so it is an input), in which case `target` is the document itself.
+       if not isinstance(node, TagNode): raise TypeError          -> None
+       ...
+       if current_root is node: return                            (since e27f40b)
+       _copy_root_siblings(current_root._etree_obj, node._etree_obj) *)
+Definition set_root (same : bool) (d : doc) (target : doc) : option doc :=
+  if negb (is_tag (root target)) then None
+  else if same then Some d
+  else Some (copy_root_siblings d target).
 Definition loose (n : node) : doc := {| prologue := []; root := n; epilogue := [] |}.
 
 (* ------------------------------------------------------------------------------------------ *)
@@ -472,5 +479,5 @@ Definition obs_serialize (k : skind) (enc ls : str) (nl : newline) (rootc : str)
   [b2n (doc_ok d); b2n (root_shape rootc); b2n (no_cr rootc); b2n (label_ok enc)]
   ++ nl_out ls nl (doc_serialize (fun k => k) (fun _ _ => rootc) enc k d).
 Definition obs_parse (rc rp : bool) (s : str) : list N := enc_parse (parse_doc_with toy_read rc rp (nl_in s)).
-Definition obs_set_root (d tgt : doc) : list N := enc_opt_doc (set_root d tgt).
+Definition obs_set_root (same : bool) (d tgt : doc) : list N := enc_opt_doc (set_root same d tgt).
 Definition obs_strip (rc rp : bool) (d : doc) : list N := enc_doc (strip_doc rc rp d).
